@@ -239,4 +239,7 @@ def cleanup_copy_of_device_ts(event: TraceEvent, _: AbstractContext) -> list[Tra
     '''
     if "args" in event and "ts_dev" in event["args"]:
         event["args"].pop("ts_dev")
+    # counters must not carry a duration (temporary entry of the utilization counter if stats are disabled)
+    if event["ph"] == "C":
+        event.pop("dur", None)
     return [event]
